@@ -5,7 +5,8 @@ package fstxn
 // VerifHook is installed by the verification harness (build tag verif).
 // kind: 0 = before inode-lock acquire, 1 = after acquire, 2 = before release,
 // 3 = before journal commit (arg = wait flag), 4 = after journal commit (arg = ok),
-// 5 = abort, 6 = before log flush (COMMIT), 7 = after log flush (arg = ok).
+// 5 = abort, 6 = before log flush (COMMIT), 7 = after log flush (arg = ok),
+// 8 = inode number freshly allocated by this transaction (about to be locked).
 var VerifHook func(kind int, op *FsTxn, arg uint64)
 
 func verifEv(kind int, op *FsTxn, arg uint64) {
